@@ -8,8 +8,6 @@ use std::{borrow::Cow, vec::Vec};
 ///
 /// The common practise is to use the function `to_lossy_string` to convert to a standard Rust
 /// String.
-use itertools::Itertools;
-
 use super::control::ControlCharacter;
 
 const DEFAULT_CODEPAGE: char = 'L';
@@ -150,6 +148,20 @@ pub fn to_lossy_bytes(input: &str) -> Cow<[u8]> {
     output.into()
 }
 
+/// Is this byte the first byte of a double byte character in the given codepage?
+fn is_lead_byte(encoding: &'static encoding_rs::Encoding, byte: u8) -> bool {
+    if encoding == encoding_rs::SHIFT_JIS {
+        matches!(byte, 0x81..=0x9F | 0xE0..=0xFC)
+    } else if encoding == encoding_rs::GBK
+        || encoding == encoding_rs::EUC_KR
+        || encoding == encoding_rs::BIG5
+    {
+        (0x81..=0xFE).contains(&byte)
+    } else {
+        false
+    }
+}
+
 /// Convert a InsimString into a native rust String, with potential lossy conversion from codepages
 /// Assumes any \0 characters have been stripped ahead of time
 pub fn to_lossy_string(input: &[u8]) -> Cow<str> {
@@ -158,17 +170,35 @@ pub fn to_lossy_string(input: &[u8]) -> Cow<str> {
         return "".into();
     }
 
-    // find the positions in the input for each ^L, ^B...
-    let mut indices: Vec<usize> = input
-        .iter()
-        .tuple_windows()
-        .positions(|(elem, next)| elem.is_lfs_control_char() && next.is_lfs_codepage())
-        .collect();
-
     // allowing unwrap because if this panics we're screwed
     let default_lfs_codepage = DEFAULT_CODEPAGE
         .as_lfs_codepage()
         .unwrap_or_else(|| unreachable!());
+
+    // find the positions in the input for each ^L, ^B...
+    // This is a left to right scan which tracks the current codepage, because an escaped marker
+    // (^^) and the trail byte of a double byte character (which may be 0x5E) can both be followed
+    // by something that only looks like a codepage marker.
+    let mut indices: Vec<usize> = Vec::new();
+    let mut current_encoding = default_lfs_codepage;
+    let mut i = 0;
+    while i < input.len() {
+        if input[i].is_lfs_control_char() {
+            match input.get(i + 1) {
+                Some(next) if next.is_lfs_control_char() => i += 2,
+                Some(next) if next.is_lfs_codepage() => {
+                    indices.push(i);
+                    current_encoding = next.as_lfs_codepage().unwrap_or(default_lfs_codepage);
+                    i += 2;
+                },
+                _ => i += 1,
+            }
+        } else if is_lead_byte(current_encoding, input[i]) {
+            i += 2;
+        } else {
+            i += 1;
+        }
+    }
 
     if indices.is_empty() {
         // no mappings at all, just encode it all as the default
